@@ -64,6 +64,8 @@ def _cases(draw, tier):
                 kk = M.boundary_index(j, N, D, unit) + draw(st.sampled_from([0, 0, 0, 1, -1]))
                 ks.append(kk if kk > ks[-1] else ks[-1] + 1)
             last = ks[-1]
+            if draw(st.booleans()):
+                ks = list(draw(st.permutations(ks)))  # one call, samples not in ascending order
             steps.append({"s": "mdb", "ks": ks})
         elif k == "md":
             mode = draw(st.integers(0, 3))
